@@ -41,7 +41,7 @@ try:
     rc, out = run(['go','test','-vet=off','-count=1','-run','TestSeedDemo',demo_pkg])
     res['demo_fails_with_patch'] = (rc != 0); res['demo_patched_tail'] = out[-400:]
     os.remove(os.path.join(wt, demo_rel))
-    p = subprocess.run(['/verif/bin/govc','check','-prop',prop,'-repo',wt,'-no-evidence'],cwd='/verif',capture_output=True,text=True)
+    p = subprocess.run(['/verif/bin/govc','check','-prop',prop,'-repo',wt,'-no-evidence'],cwd='/verif',capture_output=True,text=True,errors='replace')
     res['check_exit'] = p.returncode
     res['check_violations'] = [l for l in p.stdout.splitlines() if l.startswith('VIOLATION') or l.startswith('  obligation')][:12]
     res['check_summary'] = p.stdout.strip().splitlines()[-1] if p.stdout.strip() else ''
